@@ -138,8 +138,8 @@ class Mapper:
 PLT_CALLS = []
 
 
-def worker_init():
-    common.ensure_loaded(MODS)
+def worker_init(mods=None):
+    common.ensure_loaded(mods or MODS)
     P = common.S("evo.tools.plot")
     P.LineCollection = RecLC
     P.art3d = types.SimpleNamespace(Line3DCollection=RecLC3, LineCollection=RecLC3)
